@@ -68,6 +68,7 @@ def load_families(prop):
 def _proof_task(args):
     prop, fam_name, kind, timeout_ms, config = args
     os.environ["VERIF_REPO"] = REPO
+    os.environ["VERIF_TIER"] = "thorough" if timeout_ms >= 60000 and os.environ.get("VERIF_TIER_ARG") == "thorough" else "quick"
     os.environ["VERIF_PROPERTY"] = prop
     try:
         from .sym import env
@@ -235,6 +236,7 @@ def main(argv=None):
         return do_replay(prop, a.replay)
     seed = int(os.environ.get("VERIF_SEED", "0") or 0)
     tier = a.tier
+    os.environ["VERIF_TIER_ARG"] = tier
     t0 = time.time()
     os.environ["VERIF_REPO"] = REPO
     sys.path.insert(0, REPO)
@@ -295,6 +297,10 @@ def main(argv=None):
             checker_errors.append(f"vacuous proof: {o['name']}: {o.get('reason')}")
     obligations = [o for o in obligations if o["status"] != "vacuous"]
     n_canaries = sum(r.get("canaries", 0) for r in proof_results)
+    cross = collections.Counter(o.get("cross_check") for o in obligations if o.get("cross_check"))
+    for o in obligations:
+        if o.get("cross_check") == "sat":
+            checker_errors.append(f"solver disagreement: z3 discharged {o['name']} but cvc5 finds the instantiated VC satisfiable")
     n_ob = len(obligations)
     proved = [o for o in obligations if o["status"] == "proved"]
     by_backend = collections.Counter(o.get("solver", "?") for o in proved)
@@ -481,6 +487,7 @@ def main(argv=None):
             "undecided": [{"name": o["name"], "reason": o.get("reason", "")[:300]} for o in undecided][:40],
             "solver_time_s": round(solver_time, 3),
             "vacuity_canaries_checked": n_canaries,
+            "cvc5_cross_check_of_discharged_VCs": dict(cross),
             "max_obligation_time_s": max([o.get("time", 0) or 0 for o in obligations] + [0]),
             "checker_cmd": f"./check {prop} --tier {tier}",
             "trusted_base": TRUSTED_BASE,
